@@ -303,13 +303,15 @@ def statusOf (f : Fields) : Nat :=
   if s.isEmpty then 500 else
   if s.all Char.isDigit then s.toNat?.getD 500 else 500
 
-/-- `makeRequest`: path / query split at the first `?` -/
+/-- `makeRequest`: path / query split at the first `?` (`strings.Contains`, `strings.SplitN(path, "?", 2)`),
+`ForceQuery` = there is a `?` with nothing behind it -/
 def pathOf (f : Fields) : String × String × Bool :=
   let p := getPseudo f ":path"
-  match p.splitOn "?" with
-  | [] => (p, "", false)
-  | [_] => (p, "", false)
-  | a :: rest => (a, "?".intercalate rest, ("?".intercalate rest).isEmpty)
+  let l := p.toList
+  if l.contains '?' then
+    let q := (l.dropWhile (fun c => c != '?')).drop 1
+    (String.ofList (l.takeWhile (fun c => c != '?')), String.ofList q, q.isEmpty)
+  else (p, "", false)
 
 inductive OEv
   | reqStart
@@ -390,6 +392,29 @@ deriving DecidableEq, Repr, Inhabited
 
 def applyOps (c : Coll) (ops : Ops) : Coll := c.run (ops.map (·.2))
 
+/-! ### layers 2 + 3 on the sequence of wire events -/
+
+/-- what happens on the wire / to the connection, in the order the tracer gets to see it -/
+inductive WEv
+  | frame (isReq : Bool) (f : Frame)
+  | lost (err : Err)       -- connection ended: failed Read/Write, or Close
+  | timers                 -- retryWait elapsed
+deriving DecidableEq, Repr, Inhabited
+
+/-- stream table and retry collector on one wire event: a decoded frame goes through
+`handleFrame`, the end of the connection through `cancelAll`, `retryWait` elapsing fires every
+pending retry timer -/
+def wstep (s : L2 × Coll) : WEv → L2 × Coll
+  | .frame isReq f =>
+    let r := handleFrame s.1 isReq f
+    (r.1, applyOps s.2 r.2)
+  | .lost err =>
+    let r := cancelAll s.1 err
+    (r.1, applyOps s.2 r.2)
+  | .timers => (s.1, s.2.run (s.2.waiting.map (fun p => COp.timesUp p.1)))
+
+def runW (s : L2 × Coll) (ws : List WEv) : L2 × Coll := ws.foldl wstep s
+
 variable {σ : Type}
 
 def Conn.cancelAll (c : Conn σ) (err : Err) : Conn σ :=
@@ -419,6 +444,33 @@ def Conn.step (decR decW : Bytes → σ → Option (Frame × σ)) (c : Conn σ) 
     | .timeout tag => c.cancelAll (.closed tag)
     | .fail tag => c.cancelAll (.closed tag)
   | .timers => { c with coll := c.coll.run (c.coll.waiting.map (fun p => COp.timesUp p.1)) }
+
+/-- the connection's end as the tracer sees it after a call of the inner connection -/
+def lostAfterRead : IOErr → List WEv
+  | .fail tag => [.lost (.io tag)]
+  | _ => []
+def lostAfterWrite : IOErr → List WEv
+  | .ok => []
+  | .timeout tag => [.lost (.io tag)]
+  | .fail tag => [.lost (.io tag)]
+def closeErr : IOErr → Err
+  | .ok => .closed ""
+  | .timeout tag => .closed tag
+  | .fail tag => .closed tag
+
+/-- the wire events one call gives rise to: the frames that layer 1 completes with the bytes
+of this call (in order, tagged with the direction), then possibly the loss of the connection -/
+def Conn.callEvents (decR decW : Bytes → σ → Option (Frame × σ)) (c : Conn σ) : Call → List WEv
+  | .read data err => (frameTrace decR c.rd data).2.map (WEv.frame c.rd.isReq) ++ lostAfterRead err
+  | .write data err => (frameTrace decW c.wr data).2.map (WEv.frame c.wr.isReq) ++ lostAfterWrite err
+  | .close err => [.lost (closeErr err)]
+  | .timers => [.timers]
+
+/-- the wire events of a sequence of calls (`Props.C15.conn_run_eq_runW`: running the calls is
+running layers 2 + 3 on these events) -/
+def Conn.wireEvents (decR decW : Bytes → σ → Option (Frame × σ)) (c : Conn σ) : List Call → List WEv
+  | [] => []
+  | call :: calls => c.callEvents decR decW call ++ Conn.wireEvents decR decW (c.step decR decW call) calls
 
 def Conn.run (decR decW : Bytes → σ → Option (Frame × σ)) (c : Conn σ) (calls : List Call) : Conn σ :=
   calls.foldl (Conn.step decR decW) c
